@@ -34,7 +34,7 @@ full = json.load(open('/verif/seeded/MATRIX.json')) if sys.argv[1:] and os.path.
 full.update(out)
 json.dump(full, open('/verif/seeded/MATRIX.json', 'w'), indent=1, sort_keys=True)
 for sid in ids:
-    own = sid[:3]
+    own = sid[:3] if sid.startswith('C') else json.load(open(f'/verif/seeded/{sid}/meta.json')).get('property', sid[:3])
     res = out[sid]
     tag = 'CAUGHT' if own in res and not str(res[own][0]).startswith('EXIT') else ('caught-by-other' if any(not str(v[0]).startswith('EXIT') for v in res.values()) else 'MISSED')
     print(f'{sid} {tag:16s} own={res.get(own)} others={ {k: v for k, v in res.items() if k != own} }')
